@@ -4,33 +4,39 @@ C19 — datagrams are carried whole, within the peer's size limit, or not at all
 Property theorems only (helper lemmas live in `GmQuic/Lemmas/Datagram*.lean`).
 
 RFC 9221 §3: `max_datagram_frame_size` is the maximum size of a DATAGRAM *frame* (type byte, optional
-length field and payload) the advertising endpoint will accept.  The smallest frame that carries `n`
-bytes is the no-length form, `hdrSize false n + n = 1 + n` bytes.
+length field and payload) the advertising endpoint will accept.  The loader may encode a datagram of `n`
+bytes in either form; the largest is the with-length form, `hdrSize true n + n = 1 + varint(n) + n`.
+
+The model follows the code WITH `repo_patches/fix-C19-frame-size-admission.diff` and
+`fix-C19-offer-datagrams.diff` applied (known_findings/C19.json: both `fixed`).
 -/
 namespace GmQuic.Datagram
 open GmQuic.Wire
 
 /-! ### refusal -/
 
-/-- `send_bytes` refuses exactly the datagrams whose smallest possible frame exceeds the peer's
-limit; everything else is appended to the queue (and a refused datagram leaves no trace). -/
+/-- `send_bytes` refuses exactly the datagrams whose frame, as the loader may encode it (with the
+length field), exceeds the peer's limit; everything else is appended to the queue (and a refused
+datagram leaves no trace). -/
 theorem refused_iff_too_big (peerMax : Nat) (s : Sender) (d : Bytes) (h : s.closed = none) :
-    ((send peerMax s d).2 = .refused ↔ peerMax < hdrSize false d.length + d.length) ∧
-    ((send peerMax s d).2 = .queued ↔ hdrSize false d.length + d.length ≤ peerMax) ∧
+    ((send peerMax s d).2 = .refused ↔ peerMax < hdrSize true d.length + d.length) ∧
+    ((send peerMax s d).2 = .queued ↔ hdrSize true d.length + d.length ≤ peerMax) ∧
     ((send peerMax s d).2 = .queued → (send peerMax s d).1 = { s with queue := s.queue ++ [d] }) ∧
     ((send peerMax s d).2 = .refused → (send peerMax s d).1 = s) := by
   unfold send
-  simp only [h, hdrSize_false]
-  by_cases hb : 1 + d.length > peerMax <;> simp [hb] <;> omega
+  simp only [h, hdrSize, if_true]
+  by_cases hb : 1 + varintSize d.length + d.length > peerMax <;> simp [hb] <;> omega
 
-example : (send 0 {} []).2 = .refused ∧ (send 1 {} []).2 = .queued ∧ (send 3 {} [1, 2, 3]).2 = .refused := by
+example : (send 0 {} []).2 = .refused ∧ (send 1 {} []).2 = .refused ∧ (send 2 {} []).2 = .queued ∧
+    (send 4 {} [1, 2, 3]).2 = .refused ∧ (send 5 {} [1, 2, 3]).2 = .queued ∧
+    (send 66 {} (List.replicate 64 7)).2 = .refused ∧ (send 67 {} (List.replicate 64 7)).2 = .queued := by
   decide
 
 /-- with the extension disabled by the peer (`max_datagram_frame_size = 0`) no writer exists and
 every datagram would be refused -/
 theorem disabled_refuses_all (s : Sender) (d : Bytes) (h : s.closed = none) :
     newWriter s 0 = .unsupported ∧ (send 0 s d).2 = .refused := by
-  have : 0 < 1 + d.length := by omega
+  have : 0 < 1 + varintSize d.length + d.length := by omega
   simp [newWriter, send, h, this]
 
 /-! ### one frame per datagram, for every remaining-space value -/
@@ -252,79 +258,148 @@ theorem oversize_head_blocks_queue (calls remaining : Nat) (s : Sender) (d : Byt
   simp only [hbig, if_true] at htl
   exact loadN_stop calls remaining s s _ htl (by intros; simp)
 
-/-- Integration level, the full clause: "on an open connection with room in the packet, an accepted
-datagram is put on the wire by the next 1-RTT assembly pass".  It is FALSE of the code as it is:
-`Components::packages()` does not list the datagram queue among the 1-RTT (or 0-RTT) sources. -/
-theorem accepted_is_offered_fails :
-    ¬ (∀ (remaining : Nat) (s : Sender) (d : Bytes) (rest : List Bytes),
-        s.closed = none → s.queue = d :: rest → d.length < 2 ^ 62 → d.length < remaining →
-        (assembleDatagrams oneRttSources remaining s).2 ≠ []) := by
-  intro h
-  exact h 100 { queue := [[1, 2, 3]] } [1, 2, 3] [] rfl rfl (by decide) (by decide) (by decide)
+/-- Integration level, the full clause: on an open flow whose head datagram `d` leaves room for its
+smallest frame in the 1-RTT packet being assembled, the assembly pass of `Components::packages()`
+(1-RTT sources) puts exactly `d`, whole, on the wire as the first DATAGRAM frame of the pass.
+(Was `accepted_is_offered_fails` before fix-C19-offer-datagrams: `packages()` had no datagram source.) -/
+theorem accepted_is_offered (remaining : Nat) (s : Sender) (d : Bytes) (rest : List Bytes)
+    (hc : s.closed = none) (hq : s.queue = d :: rest) (hd : d.length < 2 ^ 62) (hroom : d.length < remaining) :
+    ∃ pad wl p, (assembleDatagrams oneRttSources remaining s).2 = ⟨pad, wl, d⟩ :: p := by
+  obtain ⟨pad, wl, h⟩ := accepted_is_offered_component remaining s d rest hc hq hd hroom
+  obtain ⟨p, hp⟩ := assemble_head oneRttSources (by decide) remaining s _ pad wl d h
+  exact ⟨pad, wl, p, hp⟩
 
-/-- whatever is queued, a 1-RTT / 0-RTT assembly pass of the current code writes no DATAGRAM frame
-and leaves the queue as it was -/
-theorem datagram_never_offered (remaining : Nat) (s : Sender) :
-    assembleDatagrams oneRttSources remaining s = (s, []) ∧
-    assembleDatagrams zeroRttSources remaining s = (s, []) := by
-  constructor <;> rfl
+example : (assembleDatagrams oneRttSources 100 { queue := [[1, 2, 3], [4]] }).2 =
+    [⟨0, true, [1, 2, 3]⟩, ⟨0, true, [4]⟩] := by decide
 
-/-- the same clause holds as soon as the datagram queue is one of the sources (what a fix of
-`packages()` has to establish) -/
-theorem accepted_is_offered_partial (sources : List Source) (hsrc : Source.datagrams ∈ sources)
+/-- …and nothing is lost or reordered by a pass: what it wrote, followed by what it left queued, is
+the queue it found (so a pass with room for the head always shortens the queue, and `|queue|` passes
+with room for every queued datagram put all of them on the wire, in order). -/
+theorem assembly_pass_takes_queue_prefix (remaining : Nat) (s : Sender)
+    (h : ∀ d ∈ s.queue, d.length < 2 ^ 62) (hc : s.closed = none) :
+    Pkt.payloads (assembleDatagrams oneRttSources remaining s).2 ++
+      (assembleDatagrams oneRttSources remaining s).1.queue = s.queue := by
+  have := (packet_decodes_to_its_datagrams (remaining + 1) remaining s h).2.2.2 hc
+  simpa [assembleDatagrams, oneRttSources] using this
+
+/-- Liveness on an open, uncongested flow, for ANY queue: if every queued datagram leaves room for its
+smallest frame in the room a 1-RTT packet offers (`remaining`), then `|queue|` assembly passes (or
+more) put ALL queued datagrams on the wire — the payloads of the packets, in packet order and
+inside a packet in frame order, are exactly the queue — and leave the queue empty.  No datagram the
+API accepted stays behind. -/
+theorem all_accepted_reach_wire (n : Nat) : ∀ (remaining : Nat) (s : Sender), s.closed = none →
+    (∀ d ∈ s.queue, d.length < remaining ∧ d.length < 2 ^ 62) → s.queue.length ≤ n →
+    (passes n remaining s).1.queue = [] ∧ (passes n remaining s).2.flatMap Pkt.payloads = s.queue := by
+  induction n with
+  | zero =>
+    intro remaining s _ _ hn
+    have : s.queue = [] := List.length_eq_zero_iff.mp (by omega)
+    simp [passes, this]
+  | succ n ih =>
+    intro remaining s hc h hn
+    have hsmall : ∀ d ∈ s.queue, d.length < 2 ^ 62 := fun d hd => (h d hd).2
+    have hpre := assembly_pass_takes_queue_prefix remaining s hsmall hc
+    have hclosed : (assembleDatagrams oneRttSources remaining s).1.closed = none := by
+      have := (loadN_spec (remaining + 1) remaining s hsmall).2.2.1
+      simpa [assembleDatagrams, oneRttSources, hc] using this
+    have hsub : ∀ d ∈ (assembleDatagrams oneRttSources remaining s).1.queue, d ∈ s.queue := by
+      intro d hd; rw [← hpre]; exact List.mem_append_right _ hd
+    have hlen : (assembleDatagrams oneRttSources remaining s).1.queue.length ≤ n := by
+      cases hq : s.queue with
+      | nil =>
+        rw [hq] at hpre
+        have := List.append_eq_nil_iff.mp hpre
+        simp [this.2]
+      | cons d rest =>
+        obtain ⟨pad, wl, p, hp⟩ := accepted_is_offered remaining s d rest hc hq (h d (by simp [hq])).2 (h d (by simp [hq])).1
+        have hl := congrArg List.length hpre
+        rw [hp] at hl
+        simp only [Pkt.payloads, List.map_cons, List.length_append, List.length_cons, List.length_map] at hl
+        rw [hq] at hn; simp only [List.length_cons] at hn
+        rw [hq] at hl; simp only [List.length_cons] at hl
+        omega
+    have := ih remaining (assembleDatagrams oneRttSources remaining s).1 hclosed (fun d hd => h d (hsub d hd)) hlen
+    simp only [passes, List.flatMap_cons]
+    refine ⟨this.1, ?_⟩
+    rw [this.2, hpre]
+
+example : (passes 2 9 { queue := [[1, 2, 3], [4, 5, 6], [7]] }).2 =
+    [[⟨0, true, [1, 2, 3]⟩, ⟨0, false, [4, 5, 6]⟩], [⟨0, true, [7]⟩]] := by decide
+
+/-- the same clause for any source list that contains the datagram queue -/
+theorem accepted_is_offered_any_sources (sources : List Source) (hsrc : Source.datagrams ∈ sources)
     (remaining : Nat) (s : Sender) (d : Bytes) (rest : List Bytes)
     (hc : s.closed = none) (hq : s.queue = d :: rest) (hd : d.length < 2 ^ 62) (hroom : d.length < remaining) :
     (assembleDatagrams sources remaining s).2 ≠ [] := by
-  have hcont : sources.contains Source.datagrams = true := by simpa using hsrc
   obtain ⟨pad, wl, h⟩ := accepted_is_offered_component remaining s d rest hc hq hd hroom
-  simp only [assembleDatagrams, hcont, if_true]
-  rw [loadN_wrote remaining remaining s _ pad wl d h]
-  simp
+  obtain ⟨p, hp⟩ := assemble_head sources hsrc remaining s _ pad wl d h
+  rw [hp]; simp
 
-example : (assembleDatagrams (.datagrams :: oneRttSources) 100 { queue := [[1, 2, 3]] }).2 =
+example : (assembleDatagrams (.datagrams :: zeroRttSources) 100 { queue := [[1, 2, 3]] }).2 =
     [⟨0, true, [1, 2, 3]⟩] := by decide
+
+/-- 0-RTT packets carry no datagrams (`packages()` keeps `// TODO: datagram` there): a datagram queued
+before the handshake completes waits for the first 1-RTT pass; it is not dropped. -/
+theorem zero_rtt_offers_no_datagrams (remaining : Nat) (s : Sender) :
+    assembleDatagrams zeroRttSources remaining s = (s, []) := rfl
 
 /-! ### the peer's limit on the wire (RFC 9221 §3: the limit bounds the whole frame) -/
 
-/-- "Every DATAGRAM frame the loader writes for an accepted datagram is within the peer's
-`max_datagram_frame_size`" is FALSE: the writer checks the no-length size `1 + n`, the loader then
-prefers the with-length form `1 + varint(n) + n`.  Witness: limit 1, the empty datagram. -/
-theorem wire_frame_within_peer_limit_fails :
-    ¬ (∀ (peerMax remaining : Nat) (d : Bytes) (pad : Nat) (wl : Bool) (s' : Sender),
-        (send peerMax {} d).2 = .queued →
-        tryLoad remaining (send peerMax {} d).1 = (s', .wrote pad wl d) →
-        (encFrame wl d).length ≤ peerMax) := by
-  intro h
-  have := h 1 2 [] 0 true {} (by decide) (by decide)
-  revert this; decide
-
-/-- …and a peer that enforces the limit it advertised (gm-quic itself does) answers such a frame
-with PROTOCOL_VIOLATION: a datagram the API accepted kills the connection. -/
-theorem accepted_datagram_survives_same_limit_fails :
-    ¬ (∀ (limit remaining : Nat) (d : Bytes) (pad : Nat) (wl : Bool) (s' : Sender),
-        (send limit {} d).2 = .queued →
-        tryLoad remaining (send limit {} d).1 = (s', .wrote pad wl d) →
-        (recvDatagram { localMax := limit } wl d.length d).2 ≠ .protocolViolation) := by
-  intro h
-  exact h 1 2 [] 0 true {} (by decide) (by decide) (by decide)
-
-/-- what does hold: the frame is within the limit whenever the datagram leaves room for its own
-length field, `1 + varint(n) + n ≤ limit` (the bound the doc comment of
-`DatagramWriter::max_datagram_frame_size` recommends to applications), and in any case the frame never
-exceeds the limit by more than the length field. -/
-theorem wire_frame_within_peer_limit_partial (peerMax remaining : Nat) (d : Bytes) (pad : Nat) (wl : Bool)
-    (s s' : Sender) (hq : (send peerMax s d).2 = .queued) (hc : s.closed = none)
+/-- Component level: every DATAGRAM frame the loader writes for a datagram that `send_bytes` accepted
+is within the peer's `max_datagram_frame_size`, whichever encoding the loader picks, whatever the room.
+(Was `wire_frame_within_peer_limit_fails` before fix-C19-frame-size-admission: limit 1, the empty
+datagram went out as `31 00`.) -/
+theorem frame_within_peer_limit_component (peerMax remaining : Nat) (d : Bytes) (pad : Nat) (wl : Bool)
+    (s s' : Sender) (hq : (send peerMax s d).2 = .queued)
     (_hl : tryLoad remaining (send peerMax s d).1 = (s', .wrote pad wl d)) :
-    (hdrSize true d.length + d.length ≤ peerMax → (encFrame wl d).length ≤ peerMax) ∧
-    (wl = false → (encFrame wl d).length ≤ peerMax) ∧
-    (encFrame wl d).length ≤ peerMax + varintSize d.length := by
-  have h1 := ((refused_iff_too_big peerMax s d hc).2.1).mp hq
-  rw [hdrSize_false] at h1
+    (encFrame wl d).length ≤ peerMax := by
+  have h1 := send_queued_admitted peerMax s d hq
   rw [encFrame_length]
   cases wl <;> simp [hdrSize] at * <;> omega
 
-example : (send 100 {} (List.replicate 99 0)).2 = .queued ∧
-    (tryLoad 1200 (send 100 {} (List.replicate 99 0)).1).2 = .wrote 0 true (List.replicate 99 0) ∧
-    (encFrame true (List.replicate 99 (0 : UInt8))).length = 102 := by decide
+/-- History level, the full clause: for EVERY history of sends, assembly passes (any room, any number
+of loader calls), deliveries, losses, reads and connection errors, every DATAGRAM frame of every packet
+ever put on the wire is at most the peer's `max_datagram_frame_size` bytes long — type byte, length
+field if present, payload. -/
+theorem frame_within_peer_limit (peerMax localMax : Nat) (ops : List Op) (hs : SmallOps ops) :
+    ∀ p ∈ (run peerMax localMax ops).wire, ∀ l ∈ p, (encFrame l.withLen l.payload).length ≤ peerMax := by
+  intro p hp l hl
+  have i := Inv.run peerMax localMax ops hs
+  have hmem : l.payload ∈ (run peerMax localMax ops).wire.flatMap Pkt.payloads :=
+    List.mem_flatMap.mpr ⟨p, hp, List.mem_map.mpr ⟨l, hl, rfl⟩⟩
+  have hacc := i.snd_prefix.subset hmem
+  have h1 := run_accepted_admitted peerMax localMax ops _ hacc
+  rw [encFrame_length]
+  cases hw : l.withLen <;> simp [hdrSize, hw] at * <;> omega
+
+/-- …hence a peer that enforces exactly the limit it advertised (gm-quic's own `recv_datagram` does)
+never answers PROTOCOL_VIOLATION to a frame this sender put on the wire: an accepted datagram cannot
+kill the connection.  (Was `accepted_datagram_survives_same_limit_fails`.) -/
+theorem accepted_datagram_survives_same_limit (limit localMax : Nat) (ops : List Op) (hs : SmallOps ops)
+    (r : Receiver) (hr : r.localMax = limit) :
+    ∀ p ∈ (run limit localMax ops).wire, ∀ l ∈ p,
+      (recvDatagram r l.withLen l.payload.length l.payload).2 ≠ .protocolViolation := by
+  intro p hp l hl hpv
+  have hb := frame_within_peer_limit limit localMax ops hs p hp l hl
+  cases hc : r.closed with
+  | some e => simp [recvDatagram, hc] at hpv
+  | none =>
+    have := ((oversize_is_protocol_violation r l.withLen l.payload hc).1).mp hpv
+    omega
+
+-- non-vacuity: near-limit datagrams do reach the wire, in both encodings, and stay within the limit
+example :
+    let ops := [Op.send (List.replicate 97 0), .send (List.replicate 98 0), .send [1, 2, 3], .load 1200 9, .load 4 1]
+    SmallOps ops ∧
+    (run 100 100 ops).accepted = [List.replicate 97 0, [1, 2, 3]] ∧
+    (run 100 100 ops).wire = [[⟨0, true, List.replicate 97 0⟩, ⟨0, true, [1, 2, 3]⟩]] ∧
+    (encFrame true (List.replicate 97 (0 : UInt8))).length = 100 := by
+  intro ops
+  refine ⟨?_, by decide, by decide, by decide⟩
+  intro op h
+  simp only [ops, List.mem_cons, List.not_mem_nil, or_false] at h
+  rcases h with rfl | rfl | rfl | rfl | rfl <;> simp [Op.Small]
+
+example : (run 5 5 [Op.send [1, 2, 3], .load 4 1]).wire = [[⟨0, false, [1, 2, 3]⟩]] := by decide
 
 end GmQuic.Datagram
